@@ -1,17 +1,27 @@
-// Generates the op registry from the files in src/ops/ so that adding an operation file needs no
-// edit of a shared file.  Every src/ops/<name>.rs must define `pub fn ops() -> Vec<Op>`.
+// Generates the op registry from the files in src/ops/ and the support-module list from src/ext/,
+// so that adding an operation or a support module needs no edit of a shared file.
+// Every src/ops/<name>.rs must define `pub fn ops() -> Vec<Op>`.
 use std::{env, fs, path::Path};
 
-fn main() {
-    let dir = Path::new(&env::var("CARGO_MANIFEST_DIR").unwrap()).join("src").join("ops");
-    let mut names: Vec<String> = fs::read_dir(&dir)
-        .unwrap()
-        .filter_map(|e| e.ok())
-        .filter_map(|e| e.file_name().into_string().ok())
-        .filter(|n| n.ends_with(".rs") && n != "mod.rs")
-        .map(|n| n.trim_end_matches(".rs").to_string())
-        .collect();
+fn names_in(dir: &Path) -> Vec<String> {
+    let mut names: Vec<String> = fs::read_dir(dir)
+        .map(|rd| {
+            rd.filter_map(|e| e.ok())
+                .filter_map(|e| e.file_name().into_string().ok())
+                .filter(|n| n.ends_with(".rs") && n != "mod.rs")
+                .map(|n| n.trim_end_matches(".rs").to_string())
+                .collect()
+        })
+        .unwrap_or_default();
     names.sort();
+    names
+}
+
+fn main() {
+    let src = Path::new(&env::var("CARGO_MANIFEST_DIR").unwrap()).join("src");
+    let out_dir = env::var("OUT_DIR").unwrap();
+    let dir = src.join("ops");
+    let names = names_in(&dir);
     let mut out = String::new();
     for n in &names {
         out.push_str(&format!("#[path = \"{}/{}.rs\"]\npub mod {};\n", dir.display(), n, n));
@@ -21,6 +31,14 @@ fn main() {
         out.push_str(&format!("    v.extend({}::ops());\n", n));
     }
     out.push_str("    v\n}\n");
-    fs::write(Path::new(&env::var("OUT_DIR").unwrap()).join("ops_gen.rs"), out).unwrap();
+    fs::write(Path::new(&out_dir).join("ops_gen.rs"), out).unwrap();
+
+    let dir = src.join("ext");
+    let mut out = String::new();
+    for n in names_in(&dir) {
+        out.push_str(&format!("#[path = \"{}/{}.rs\"]\npub mod {};\n", dir.display(), n, n));
+    }
+    fs::write(Path::new(&out_dir).join("ext_gen.rs"), out).unwrap();
     println!("cargo:rerun-if-changed=src/ops");
+    println!("cargo:rerun-if-changed=src/ext");
 }
